@@ -13,6 +13,7 @@ import (
 	"sync/atomic"
 	"time"
 
+	pinglog "github.com/pingcap/log"
 	"github.com/tikv/client-go/v2/testutils"
 	"github.com/tikv/client-go/v2/tikv"
 	"google.golang.org/grpc"
@@ -35,6 +36,10 @@ func init() {
 	_ = fs.Set("stderrthreshold", "FATAL")
 	_ = fs.Set("v", "0")
 	klog.SetOutput(ioutil.Discard)
+	// the TiKV client logs through pingcap/log (zap): keep only fatal messages
+	if lg, props, err := pinglog.InitLogger(&pinglog.Config{Level: "fatal"}); err == nil {
+		pinglog.ReplaceGlobals(lg, props)
+	}
 }
 
 // Prefix is the backend prefix used by all harnesses
